@@ -177,7 +177,13 @@ pub fn check_case(c: &Case, rep: &mut Report) {
                     rep.hist("spurious-error");
                     viol.push((format!("C14/{}/spurious-error", level), format!("{}: no fault injected but write returned Err({})", what, e)));
                 }
-                // after an error the connection is dead: stop the sequence
+                // a refusal that consumed nothing (the fault sat at the first byte of the frame) leaves the stream at a
+                // frame boundary: the application may go on, and the next frame must again be exact or refused.
+                // After any other error the connection is dead: stop the sequence.
+                if fired > 0 && got.is_empty() && exp.is_some() {
+                    rep.hist("went-on-after-a-refused-frame");
+                    continue;
+                }
                 break;
             }
         }
@@ -298,7 +304,7 @@ pub fn make_case(class: u64, idx: u64, seed: u64, quick: bool) -> Case {
                 .collect();
             let fault_msg = r.below(n as u64) as usize;
             let fault = if r.chance(1, 3) {
-                let at = r.below(lens[fault_msg] as u64 + 8) as usize;
+                let at = if r.chance(1, 2) { 0 } else { r.below(lens[fault_msg] as u64 + 8) as usize };
                 let kind = KINDS[r.below(KINDS.len() as u64) as usize];
                 Fault::Error { at, kind, transient: kind == ErrorKind::Interrupted }
             } else {
